@@ -51,6 +51,15 @@ def run():
         v.fail("crash", c)
     lines3 = trace_v1(v, acc, recs3, "MultipleMatch / NearestMatch results inside the normalised unknown")
     acc.extra["classifier_results_checked"] = sum(1 for x in lines3 if x.get("ev") in ("mm", "nm"))
+    # ... and the character alphabet {a, b, blank}: values that are nothing but white space, values with blanks at their edges
+    genc = tlc("V1Classify", "V1ClassifyChars.cfg", workers=4, timeout=1800)
+    tlc_require_ok(genc, "V1ClassifyChars"); acc.add_tlc(genc, "V1ClassifyChars.cfg")
+    recs4, crashes4, _ = run_resumable("stringclassifier", ["common/util_test.go", "stringclassifier/sc_driver_test.go"], "TestVerifSCReplay",
+                                       {"VERIF_IN": genc.outpath, "VERIF_STRIDE": "2" if th else "6", "VERIF_CONCAT": "1"}, "sc.replay17c")
+    for c in crashes4:
+        v.fail("crash", c)
+    lines4 = trace_v1(v, acc, recs4, "MultipleMatch / NearestMatch results inside the normalised unknown, character alphabet")
+    acc.extra["classifier_results_checked"] += sum(1 for x in lines4 if x.get("ev") in ("mm", "nm"))
     rc = v.finish()
     vlib.write_evidence(PID, acc.coverage("M/G: every string <= MaxLen over 8 byte-width classes (ASCII / multi-byte space, punctuation, letters of 1, 2, 4 bytes, invalid byte), two concretisations; T: every source (>= 3 tokens) x target pair over the vocabulary {a, b} up to the stated length, every longer source (<= 10, thorough 12 tokens) x every target of 3..5 (6) tokens over the same two words (highly repetitive), and seeded long noisy copies; non-trivial = strings with >= 2 tokens / pairs with at least one candidate", exhaustive=True),
         ["the range heuristics of searchset (untangle / split / merge / coalesce) are checked against their contract, not transcribed"], time.time() - t0, len(v.violations))
